@@ -70,6 +70,10 @@ func (context *CHFContext) AddChfUeToUePool(ue *ChfUe, supi string) {
 
 // Allocate CHF Ue with supi and add to chf Context and returns allocated ue
 func (context *CHFContext) NewCHFUe(supi string) (*ChfUe, error) {
+	if strings.ContainsAny(supi, "/\\") {
+		// the supi becomes part of the charging data resource URI and of the CDR file name
+		return nil, fmt.Errorf(" add Ue context fail: supi contains a path separator ")
+	}
 	if ue, ok := context.ChfUeFindBySupi(supi); ok {
 		return ue, nil
 	}
